@@ -477,14 +477,22 @@ def rundmc(
     # Now we should be sure that there is a file
     # to continue from, if given.
     if continue_from is not None:
+        import pyqmc.method.hdftools as hdftools
+
         with h5py.File(continue_from, "r") as hdf:
             if "block" not in hdf.keys() and "step" in hdf.keys():
                 logging.warning(
                     "Warning: found deprecated key `step` in the restart file. In future versions, `block` key will be expected. All data from this run will be indexed by the key `block`."
                 )
-                blockoffset = hdf["step"][-1] // nsteps_per_block + 1
+                nrecorded = hdftools.committed_rows(hdf, "step")
+                blockoffset = hdf["step"][nrecorded - 1] // nsteps_per_block + 1
             else:
-                blockoffset = hdf["block"][-1] + 1
+                nrecorded = hdftools.committed_rows(hdf)
+                if nrecorded == 0:
+                    raise RuntimeError(
+                        f"No complete block in the restart file {continue_from}."
+                    )
+                blockoffset = hdf["block"][nrecorded - 1] + 1
 
             configs.load_hdf(hdf)
             weights = np.array(hdf["weights"])
@@ -492,9 +500,9 @@ def rundmc(
                 raise ValueError(
                     "Did not find e_trial in the restart file. This may mean that you are trying to restart from a different version of DMC"
                 )
-            e_trial = hdf["e_trial"][-1]
-            e_est = hdf["e_est"][-1]
-            esigma = hdf["esigma"][-1]
+            e_trial = hdf["e_trial"][nrecorded - 1]
+            e_est = hdf["e_est"][nrecorded - 1]
+            esigma = hdf["esigma"][nrecorded - 1]
             if verbose:
                 print(
                     f"Restarting calculation {continue_from} from block {blockoffset}"
@@ -595,9 +603,12 @@ def rundmc(
 
 def estimate_energy(hdf_file, df, ekey):
     if hdf_file is not None:
+        import pyqmc.method.hdftools as hdftools
+
         with h5py.File(hdf_file, "r") as f:
-            en = f[ekey[0] + ekey[1]][()]
-            wt = f["weight"][()]
+            nrecorded = hdftools.committed_rows(f)
+            en = f[ekey[0] + ekey[1]][:nrecorded]
+            wt = f["weight"][:nrecorded]
     else:
         en = np.asarray([d[ekey[0] + ekey[1]] for d in df])
         wt = np.asarray([d["weight"] for d in df])
